@@ -2,7 +2,7 @@
    ONLY statements; proofs are `exact <lemma of Proofs/RegistryProofs.v>`.  Everything holds for EVERY digest H
    (collisions allowed: this is the "whatever the digest size" clause).  The state machine is Model/Registry.v;
    `step H ct true` is the code in /repo (after the D4 repair), `step H ct false` the code before it. *)
-From Oak Require Import Model.Registry Proofs.RegistryProofs.
+From Oak Require Import Model.Registry Proofs.RegistryProofs Proofs.RegistryReach.
 
 (* ---- the invariant is inductive over every history of public operations ---- *)
 Theorem C03_inv_init : forall n, RInv (init_st n).
@@ -37,6 +37,23 @@ Example C03_ex_lookup :
   /\ reachable ex_state 0 = true /\ get ex_ct ex_state (lit "A") (lit "n") false = None
   /\ get ex_ct ex_state (lit "ASTNode") (lit "n") false = Some 2.
 Proof. vm_compute. repeat split. Qed.
+
+(* ---- the main clause.  RInvS = RInv + "whatever a collection once found unreferenced is unreferenced now"; it is
+        inductive as well, and under it the registry holds EXACTLY the nodes that are still referenced (reachable from
+        the program's variables through child fields) and were not themselves detached / replaced away ---- *)
+Theorem C03_invS_init : forall n, RInvS (init_st n).
+Proof. exact invS_init. Qed.
+Theorem C03_invS_step : forall H ct s o, RInvS s -> RInvS (fst (step H ct true s o)).
+Proof. exact step_invS. Qed.
+Theorem C03_invS_reachable : forall H ct n l, RInvS (run H ct true (init_st n) l).
+Proof. intros H ct n l. exact (run_invS H ct l _ (invS_init n)). Qed.
+Theorem C03_lookup_live : forall s i a, RInvS s ->
+  (get_any s i = Some a <->
+   exists c, cell_at s a = Some c /\ k_id c = i /\ ~ In a (det s) /\ reachable s a = true).
+Proof. exact lookup_live. Qed.
+Example C03_ex_live : RInvS ex_state /\ reachable ex_state 1 = true /\ get_any ex_state (lit ")_1") = Some 1
+  /\ reachable ex_state 0 = true /\ In 0 (det ex_state) /\ get_any ex_state (lit ")") = None.
+Proof. split; [exact (run_invS ex_H ex_ct ex_ops _ (invS_init 4))|vm_compute; intuition]. Qed.
 
 (* ---- ids of simultaneously registered nodes are pairwise different, whatever H ---- *)
 Theorem C03_unique_ids : forall s a b ca cb, RInv s ->
